@@ -559,6 +559,7 @@ func (pp *partitionProducer) dispatch() {
 			case <-pp.brokerProducer.abandoned:
 				// a message on the abandoned channel means that our current broker selection is out of date
 				Logger.Printf("producer/leader/%s/%d abandoning broker %d\n", pp.topic, pp.partition, pp.leader.ID())
+				verifEvt("pp.abandon", msg, 0, 0)
 				pp.parent.unrefBrokerProducer(pp.leader, pp.brokerProducer)
 				pp.brokerProducer = nil
 				time.Sleep(pp.parent.conf.Producer.Retry.Backoff)
@@ -600,6 +601,7 @@ func (pp *partitionProducer) dispatch() {
 
 		if pp.brokerProducer == nil {
 			if err := pp.updateLeader(); err != nil {
+				verifEvt("pp.fail", msg, msg.retries, 0)
 				pp.parent.returnError(msg, err)
 				pp.backoff(msg.retries)
 				continue
@@ -646,6 +648,7 @@ func (pp *partitionProducer) flushRetryBuffers() {
 
 		if pp.brokerProducer == nil {
 			if err := pp.updateLeader(); err != nil {
+				verifEvtMsgs("pp.fail", pp.retryState[pp.highWatermark].buf, pp.highWatermark)
 				pp.parent.returnErrors(pp.retryState[pp.highWatermark].buf, err)
 				goto flushDone
 			}
